@@ -748,6 +748,33 @@ def c17_reconnect_runs(ctx, binp):
     return runs
 
 
+def many_reconnects_run(ctx, binp):
+    """One daemon run with two dozen short camera connections of a camera that announces 8 (quick) or 4 / 16 fps: whatever
+    handleConn keeps between connections must not wear out.  Every frame of every connection must be delivered and land
+    in a continuous file as predicted (a camera that restarts after every bad frame reconnects just like this)."""
+    rng = ctx.sub_rng("fam_e2e.many-reconnects")
+    runs = []
+    for (fps, nconn) in ([(8, 23)] if ctx.tier == "quick" else [(8, 23), (16, 18), (4, 33)]):
+        settings = dict(min=1, max=1, preview=(1 if fps <= 8 else 0), const=True, throttle=False,
+                        motion=dict(FIXED_MOTION, **{"trigger-frames": 1}), device="dev", deviceid=7)
+        conns, mev, fid = [], [], 1
+        for c in range(nconn):
+            conn, ev, fid = build_conn(rng, settings, 4, 3, fps, "lepton3", fid, fps + 1 + rng.randint(1, 4), with_clear=False, with_bad=False)
+            conns.append(conn)
+            mev += ev
+        scen = dict(config=toml(settings), prefiles=[], conns=conns)
+        try:
+            evs = run_e2e(ctx, binp, scen, "reconn%d" % fps)
+        except DaemonCrash as dc:
+            runs.append(dict(kind="crash", settings=settings, fps=fps, model="lepton3", msg=dc.msg, result=dict(files=[], constant=[]),
+                             connections=nconn))
+            continue
+        last = [e for e in evs if e["ev"] == "e2e-conn-done"][-1]
+        runs.append(dict(kind="predict", settings=settings, fps=fps, model="lepton3", model_events=mev, result=last, scen=scen,
+                         expected_motion={}, connections=nconn))
+    return runs
+
+
 def c13_runs(ctx, binp):
     """C13 at the daemon: bad Lepton / Boson frames inside socket streams; the files must be the predicted ones, every
     bad frame must be reported as a 'bad-thermal-frame' event and answered with a camera restart request."""
